@@ -114,10 +114,17 @@ class EnumConst:
         return '%s.%s' % (self.cls, self.name)
 
 
-def _known(p, t):
-    """truth of a test the path has already decided: the very same (side-effect free) expression was branched on before"""
+def _known(p, t, source=None):
+    """truth of a test the path has already decided: the very same (side-effect free) expression was branched on before.
+    `source` is the test as written: when it calls nothing itself (it only names values computed before), the calls that appear in
+    the substituted text are those earlier values, not new calls"""
     if t is not None and getattr(t, 'decided', None) is not None:
         return t.decided
+    if t is not None and source is not None and 'mutated' not in t.tags and not any(isinstance(n, (ast.Call, ast.Await, ast.Yield, ast.YieldFrom, ast.NamedExpr, ast.Attribute, ast.Subscript)) for n in ast.walk(source)):
+        for ft, pol in reversed(p.facts):
+            if ft == t.text:
+                return pol
+        return None
     if t is None or any(isinstance(n, (ast.Call, ast.Await, ast.Yield, ast.YieldFrom, ast.NamedExpr)) and not (isinstance(n, ast.Call) and isinstance(n.func, ast.Name) and n.func.id in ('isinstance', 'issubclass', 'callable', 'type', 'id')) for n in ast.walk(t.ast)):
         return None
     if 'mutated' in t.tags:
@@ -634,7 +641,7 @@ class Tracer:
         for q, t in self._expr(test, p, fi, depth):
             c = _truth(t)
             if c is None:
-                c = _known(q, t)
+                c = _known(q, t, test)
             if c is True:
                 outs.extend(self._block(body, [q], fi, depth))
             elif c is False:
@@ -799,7 +806,7 @@ class Tracer:
             for q, t in self._expr(e.test, p, fi, depth):
                 c = _truth(t)
                 if c is None:
-                    c = _known(q, t)
+                    c = _known(q, t, e.test)
                 if c is True:
                     outs.extend(self._expr(e.body, q, fi, depth))
                 elif c is False:
@@ -1331,7 +1338,19 @@ class Tracer:
                     for s_, kw in kcur:
                         for t_, v in self._expr(k.value, s_, fi, depth):
                             d = dict(kw)
-                            d[k.arg if k.arg is not None else '**%d' % len(d)] = v
+                            tbl = None
+                            if k.arg is None and isinstance(k.value, ast.Name) and k.value.id not in s_.env:
+                                g_ = fi.module.frozen_display(k.value.id)
+                                if isinstance(g_, ast.Dict) and all(isinstance(x, ast.Constant) and isinstance(x.value, str) for x in g_.keys):
+                                    tbl = g_
+                            if k.arg is None and v.items is not None and all(kv[0].const is not NOCONST and isinstance(kv[0].const, str) for kv in v.items):
+                                for kk_, vv_ in v.items:
+                                    d[kk_.const] = vv_       # **{'a': x, ...}: the display spelled out
+                            elif tbl is not None:
+                                for kk_, vv_ in zip(tbl.keys, tbl.values):
+                                    d[kk_.value] = Val(clone(vv_), const=(vv_.value if isinstance(vv_, ast.Constant) else NOCONST))       # **_MODULE_TABLE: a frozen module-level dict of keyword arguments
+                            else:
+                                d[k.arg if k.arg is not None else '**%d' % len(d)] = v
                             nk.append((t_, d))
                     kcur = nk
                 for s_, kw in kcur:
